@@ -198,6 +198,10 @@ class Run:
                 res["samples"].append(args)
                 # 1. unit replay in a plain interpreter
                 u = self._call(path, "body", args)
+                if u.get("glue"):
+                    res["status"] = "inconclusive"
+                    res["reason"] = "harness glue error (outdated stand-in), not a property violation: " + str(u.get("exception"))[:200]
+                    break
                 if str(u.get("exception") or "").startswith("Unsupported"):
                     res["status"] = "inconclusive"
                     res["reason"] = "a stand-in does not model an operation the code under test uses: " + u["exception"][:200]
